@@ -88,6 +88,7 @@ func newC03env(res *verifrt.Result, base string) *c03env {
 	e.now = time.Date(2024, 3, 4, 10, 0, 0, 0, time.UTC) // a Monday
 	CounterTime = func() time.Time { return e.now }
 	e.f = &file{}
+	trapExit()
 	munmap = func(d *mmap.Data) error {
 		step := 0
 		if e.sched != nil {
@@ -493,7 +494,9 @@ func c03Judge(r *verifrt.Result, check string, i int, p c03prog, st c03strategy,
 		if t.Panic != nil {
 			sig := "panic:" + topFrame(t.Stack)
 			msg := fmt.Sprintf("thread %s panicked in program %s: %v\n%.1500s", t.Name, p.Name, t.Panic, t.Stack)
-			if addr, ok := verifrt.FaultAddr(t.Panic); ok {
+			if ep, ok := t.Panic.(verifrt.ExitPanic); ok {
+				sig = fmt.Sprintf("exit-%d:counter-bug-on-healthy-file:%s", ep.Code, exitFrame(t.Stack))
+			} else if addr, ok := verifrt.FaultAddr(t.Panic); ok {
 				if idx, label, ok := e.q.FindIndex(addr); ok {
 					timing, cause := "overlapping-call", e.causeAny()
 					if idx < e.opStartUnmaps[t.ID] {
